@@ -368,14 +368,22 @@ impl Fl for SyncFl {
         a.clone_from(b)
     }
     fn s_under_guard(s: &Self::S, write: bool, f: &mut dyn FnMut()) {
+        // a panic inside `f` must not unwind through the write guard (std's RwLock would be poisoned and the
+        // library's own destructors, which lock it, would then panic during cleanup = abort)
         if write {
             let g = s.write();
-            f();
+            let r = std::panic::catch_unwind(std::panic::AssertUnwindSafe(|| f()));
             drop(g);
+            if let Err(e) = r {
+                std::panic::resume_unwind(e);
+            }
         } else {
             let g = s.read();
-            f();
+            let r = std::panic::catch_unwind(std::panic::AssertUnwindSafe(|| f()));
             drop(g);
+            if let Err(e) = r {
+                std::panic::resume_unwind(e);
+            }
         }
     }
     fn s_tag(s: &Self::S) -> u32 {
